@@ -120,8 +120,17 @@ Serde ==
             /\ \A i \in 1..Len(E.before) : E.before[i] = E.after[i] \/ FClose(E.before[i], E.after[i], "1e-14", FAbs(E.before[i]), "0"))
   /\ cnt' = Bump(cnt, "serde_round_trips")
 
+\* a binary record with association parameters reaches BOTH cross entries (A-site of i with B-site of j, and B of i with A of j) of the built association matrices,
+\* whatever the order of the query and the orientation in which the record is stored
+AssocBinary ==
+  /\ Ev("AssocBinary")
+  /\ Report("C14.binary_association_record_is_orientation_free", <<E.model, E.pair, E.stored_swapped, E.query_swapped, E.eps_record, E.eps, E.rc_record, E.rc, l>>,
+            /\ E.ok /\ Len(E.eps) = 2 /\ Len(E.rc) = 2
+            /\ \A i, j \in 1..2 : i # j => (FClose(E.eps[i][j], E.eps_record, "1e-14", FAbs(E.eps_record), "0") /\ FClose(E.rc[i][j], E.rc_record, "1e-14", FAbs(E.rc_record), "0")))
+  /\ cnt' = Bump(cnt, "binary_association_records")
+
 Init == l = 1 /\ cnt = NoCount
-Next == /\ (Lookup \/ Binary \/ Multi \/ SegHomo \/ SegKij \/ SegKijN \/ SegHetero \/ Serde)
+Next == /\ (Lookup \/ Binary \/ Multi \/ SegHomo \/ SegKij \/ SegKijN \/ SegHetero \/ Serde \/ AssocBinary)
         /\ (l' > NRec => PrintT("STATS " \o ToJson(cnt')))
 TraceSpec == Init /\ [][Next]_vars
 ================================================================================
